@@ -111,9 +111,51 @@ named_regex('chars-count', r'(\w+)\.chars\(\)\.count\(\)', r'vx_chars_count(\1)'
 named_regex('assert-eq', r'assert_eq!\(([^;]*?),\s*([^;]*?)\);', r'assert(\1 == \2);',
              'assert_eq!(a, b) -> assert(a == b): the run-time panic condition becomes a proof obligation')
 
-named_regex('is-some-and', r'(\b[\w\.\(\)]+?)\.is_some_and\(\|(\w+)\| ([^\n]*?)\)(?=\s*(\{|&&|\|\||;|\)))',
-             r'(match \1 { Some(\2) => \3, None => false })',
-             'O.is_some_and(|x| B) -> match O { Some(x) => B, None => false }')
+@rule('is-some-and')
+def is_some_and(text, **_):
+    """O.is_some_and(|x| B) -> (match O { Some(x) => B, None => false })   (std definition of Option::is_some_and).
+    O is the whole postfix chain in front of the call (identifiers, field accesses, calls), B the closure body."""
+    n = 0
+    while True:
+        toks = L.code_tokens(text)
+        hit = None
+        for i, t in enumerate(toks):
+            if L.tok_text(text, t) == 'is_some_and' and i >= 1 and L.tok_text(text, toks[i - 1]) == '.' \
+                    and i + 1 < len(toks) and L.tok_text(text, toks[i + 1]) == '(':
+                close = L.match_close(text, toks, i + 1)
+                # closure: | x | body
+                if L.tok_text(text, toks[i + 2]) != '|' or toks[i + 3][0] != 'ident' or L.tok_text(text, toks[i + 4]) != '|':
+                    raise Undecided('is-some-and: closure with a pattern or several parameters')
+                var = L.tok_text(text, toks[i + 3])
+                body = text[toks[i + 4][2]:toks[close][1]].strip()
+                # receiver: walk back over the postfix chain
+                j = i - 2
+                while j >= 0:
+                    tt = L.tok_text(text, toks[j])
+                    if tt in (')', ']'):
+                        depth = 0
+                        while j >= 0:
+                            c = L.tok_text(text, toks[j])
+                            if c in (')', ']'): depth += 1
+                            elif c in ('(', '['):
+                                depth -= 1
+                                if depth == 0: break
+                            j -= 1
+                        j -= 1; continue
+                    if toks[j][0] in ('ident', 'num') or tt in ('.', '?'):
+                        if toks[j][0] == 'ident' and tt in ('let', 'return', 'if', 'while', 'match', 'in', 'else'): break
+                        j -= 1; continue
+                    if tt == ':' and j >= 1 and L.tok_text(text, toks[j - 1]) == ':':
+                        j -= 2; continue
+                    break
+                start = toks[j + 1][1]
+                recv = ' '.join(text[start:toks[i - 1][1]].split())
+                hit = (start, toks[close][2], '(match %s { Some(%s) => %s, None => false })' % (recv, var, body))
+                break
+        if not hit: break
+        text = text[:hit[0]] + hit[2] + text[hit[1]:]
+        n += 1
+    return text, n
 
 
 def apply_rules(item, rules):
